@@ -74,8 +74,8 @@ def cols_equiv(a, b):
     return ""
 
 
-def mk(c0, c1, d0, bdef, kind):
-    cols = [("id", {"typ": "int", "doc": "[PK] the id"}),
+def mk(c0, c1, d0, bdef, kind, optpk=False):
+    cols = [("id", {"typ": "Optional[int]" if optpk else "int", "doc": "[PK] the id"}),
             ("b", {"typ": "str", "doc": "second " + S((d0,)), "default": S((c0, c1))})]
     if kind == 0:
         cols.append(("c", {"typ": "Optional[float]", "doc": "third col"}))
@@ -91,8 +91,8 @@ def mk(c0, c1, d0, bdef, kind):
 
 
 def _rt(variant):
-    def body(c0, c1, d0, bdef, kind):
-        ir = mk(c0, c1, d0, bdef, kind)
+    def body(c0, c1, d0, bdef, kind, optpk):
+        ir = mk(c0, c1, d0, bdef, kind, optpk)
         try:
             node, back = emit_parse(variant, ir)
         except Exception as e:
@@ -105,8 +105,8 @@ def _rt(variant):
 
 
 for _v in ("class", "table"):
-    ob("C05", "P1.roundtrip.%s" % _v, {"c0": PR, "c1": PR, "d0": PR, "bdef": BOOL, "kind": R(0, 4)}, pre="d0 != 47", T=400, funcs=FUNCS, assumes=[ADHOC_SHIMS_DOC],
-       bound="[PK] id:int, b:str with default = ANY 2 printable characters and description 'second '+ANY printable, third column of kind "
+    ob("C05", "P1.roundtrip.%s" % _v, {"c0": PR, "c1": PR, "d0": PR, "bdef": BOOL, "kind": R(0, 4), "optpk": BOOL}, pre="d0 != 47", T=400, funcs=FUNCS, assumes=[ADHOC_SHIMS_DOC],
+       bound="[PK] id:int or Optional[int], b:str with default = ANY 2 printable characters and description 'second '+ANY printable, third column of kind "
              "Optional[float] / Literal['np','tf'] / bool with default / dict / Optional[dict]")(_rt(_v))
 
 
@@ -128,11 +128,12 @@ ob("C05", "P2.class_table_agree", {"c0": PR, "c1": PR, "bdef": BOOL, "kind": R(0
 NAMES = ("id", "dataset_name", "x", "user_id")
 
 
-def pk_unique(variant, marker, mask, force_pk_id):
+def pk_unique(variant, marker, mask, force_pk_id, opt=False):
     cols = []
     for i, n in enumerate(NAMES):
         if mask & (1 << i):
-            cols.append((n, {"typ": "int" if n != "dataset_name" else "str", "doc": ("[PK] " if marker == i else "") + "col " + n}))
+            t = "int" if n != "dataset_name" else "str"
+            cols.append((n, {"typ": ("Optional[%s]" % t) if opt else t, "doc": ("[PK] " if marker == i else "") + "col " + n}))
     if not cols:
         return ""
     ir = {"name": "Config", "doc": "Header line.", "type": "static", "params": OrderedDict(cols), "returns": None}
@@ -149,11 +150,15 @@ def pk_unique(variant, marker, mask, force_pk_id):
         return "parsed back with %d [PK] markers" % len(marked)
     if 0 <= marker < 4 and (mask & (1 << marker)) and marked[0] != NAMES[marker]:
         return "the explicit [PK] marker moved from %s to %s" % (NAMES[marker], marked[0])
+    for k, pcol in back["params"].items():
+        want = dict(cols)[k]["typ"] if k in dict(cols) else None
+        if want is not None and k != marked[0] and pcol.get("typ") != want:  # nullability of an INFERRED primary key is not claimed
+            return "column %s: type changed %r -> %r (primary key: %s)" % (k, want, pcol.get("typ"), k == marked[0])
     return ""
 
 
-ob("C05", "K2.pk_unique", {"variant": R(0, 1), "marker": R(-1, 3), "mask": R(1, 15), "force_pk_id": BOOL}, T=600, tpath=60, funcs=FUNCS,
-   bound="ANY non-empty subset of columns %r, the [PK] marker on ANY one of them or on none, force_pk_id on/off, class and Table variants (solver-enumerated)" % (NAMES,))(pk_unique)
+ob("C05", "K2.pk_unique", {"variant": R(0, 1), "marker": R(-1, 3), "mask": R(1, 15), "force_pk_id": BOOL, "opt": BOOL}, T=900, tpath=60, funcs=FUNCS,
+   bound="ANY non-empty subset of columns %r, the [PK] marker on ANY one of them or on none, force_pk_id on/off, all columns Optional or not, class and Table variants (solver-enumerated); types survive, also on the primary key" % (NAMES,))(pk_unique)
 
 
 def w_hybrid(kind):
